@@ -111,6 +111,16 @@ def extra_cases(seed):
         yield dict(extra=name, env='free', f=f, objs=objs)
         for vs in (1e-7, 7e-6, 1e6):         # the report carries the currents of microvolt and megavolt sources just the same
             yield dict(extra='%s x%g V' % (name, vs), env='free', f=f, objs=objs, vscale=vs)
+    # objects standing on the ground plane with one or both ends: half loop (one arc, two quarter arcs), arc + monopole
+    hl = dict(kind='arc', n=6, radius=R, ang1=0., ang2=180., r=r)
+    hlr = dict(kind='arc', n=6, radius=R, ang1=180., ang2=0., r=r)
+    q1 = dict(kind='arc', n=3, radius=R, ang1=0., ang2=90., r=r)
+    q2 = dict(kind='arc', n=3, radius=R, ang1=90., ang2=180., r=r)
+    q2r = dict(kind='arc', n=3, radius=R, ang1=180., ang2=90., r=r)
+    mono = geom.wire([2.5 * R, 0.3 * R, 0.], [2.5 * R, 0.3 * R, 2 * R], 4, r)
+    for name, objs in (('half-loop', [hl]), ('half-loop-rev', [hlr]), ('two-quarter-arcs', [q1, q2]), ('two-quarter-arcs-head-on', [q1, q2r]),
+                       ('half-loop+monopole', [hl, mono]), ('monopole+half-loop', [mono, hlr])):
+        yield dict(extra='gnd-' + name, env='ideal', f=f, objs=objs)
     # exactly collinear junctions (telescoping element, different radii, equal segment vectors), every orientation, two orders
     stops = [np.array([0., y, 0.5]) for y in (-1., 0., 1., 2.)]
     for order in ((0, 1, 2), (2, 0, 1)):
@@ -141,10 +151,13 @@ def evaluate_extra(c):
     lastonly = set()
     groups = []
     used = set()
+    # object ends on the ground plane (from the segment table): they carry a ground pulse and print no end line
+    gtol = 1e-3 * min(sg.seg_len for g in m.geo for sg in g.segments)
+    grounded = set(i for i, e in enumerate(ends) if c['env'] != 'free' and abs(e[2][2]) < gtol)
     for i, e in enumerate(ends):
-        if i in used:
+        if i in used or i in grounded:
             continue
-        grp = [j for j in range(len(ends)) if j not in used and np.linalg.norm(ends[j][2] - e[2]) < tol]
+        grp = [j for j in range(len(ends)) if j not in used and j not in grounded and np.linalg.norm(ends[j][2] - e[2]) < tol]
         used |= set(grp)
         groups.append(grp)
     junc_of = {}
@@ -155,6 +168,14 @@ def evaluate_extra(c):
         rows = list(b['rows'])
         for e in (0, 1):
             j = 2 * gi + e
+            if j in grounded:
+                # the first / last row of the block must be the ground pulse itself (a numbered row), not an E or J line
+                edge = rows[0] if e == 0 else (rows[-1] if rows else None)
+                if edge is None or not isinstance(edge[0], int):
+                    viol.append(('ENDKIND', '%s: object %d end %d stands on the ground plane but prints the end line %s' % (c['extra'], gi + 1, e + 1, edge)))
+                    if rows:
+                        rows.pop(0) if e == 0 else rows.pop(-1)
+                continue
             exp = 'J' if len(junc_of[j]) > 1 else 'E'
             if not rows:
                 viol.append(('MISSING', '%s: object %d end %d: no line' % (c['extra'], gi + 1, e + 1)))
